@@ -208,6 +208,30 @@ func ruleSchema(c *Ctx) {
 		c.check(got == want, key, c.pos(fn.Pos()), fname(fn), "`"+p.label+"` prints "+short(ts[0].String())+": same key tree and scalars as `write` reads",
 			fmt.Sprintf("`%s` prints %s with YAML shape %s, but `crd write` decodes %s with shape %s: yaml.v3 silently ignores unknown keys, so piping the output into `crd write` loses or changes data", p.label, short(ts[0].String()), got, short(consumer.String()), want))
 	}
+	// `gen attr` prints what --attr reads: the generated list goes through the YAML encoder (a notation such as `#4` is a
+	// comment when it is printed bare)
+	if ga := c.fn("chord", "GenerateAttributes"); ga != nil && ga.Signature.Results().Len() == 1 {
+		var fn *ssa.Function
+		for f, a := range funcAlias {
+			if a == "cmd.genCmdAttr.RunE" {
+				fn = f
+			}
+		}
+		c.site(1)
+		key := "producer|gen attr"
+		if fn == nil {
+			c.bad(key, "", "", "producer of `gen attr` not found")
+		} else {
+			listT := ga.Signature.Results().At(0).Type()
+			ts := c.marshalledTypes(fn)
+			if len(ts) != 1 {
+				c.bad(key, c.pos(fn.Pos()), fname(fn), fmt.Sprintf("`gen attr` hands %d values to the YAML encoder, want the generated list: entries printed by hand are not quoted, and a notation that starts with # (every augmented interval) is read back as a comment", len(ts)))
+			} else {
+				got, want := c.yamlSchema(ts[0], "enc", 0), c.yamlSchema(listT, "dec", 0)
+				c.check(got == want, key, c.pos(fn.Pos()), fname(fn), "`gen attr` prints "+short(ts[0].String())+" through the YAML encoder: the shape --attr reads", fmt.Sprintf("`gen attr` prints %s with YAML shape %s, --attr reads %s with shape %s", short(ts[0].String()), got, short(listT.String()), want))
+			}
+		}
+	}
 	// the `cmt` modifier of `write conv` adds a text and keeps everything else of the instance
 	if mf := c.fn("input", "ChordMetaTextMotifier.Modify"); mf != nil {
 		c.site(1)
@@ -2019,6 +2043,18 @@ func (c *Ctx) checkDecodersKeepWhatTheyRead() {
 						continue // a helper of the command package: looked into as part of the region
 					}
 					others = append(others, n+" ("+c.pos(ci.Pos())+")")
+				}
+			}
+		}
+		// ... and what is decoded is the document as it was read: the bytes handed to the YAML decoder are the function's
+		// own parameter, not a trimmed or rewritten copy (line breaks at the end of the last block scalar are text)
+		if len(pi.Params) == 1 {
+			for _, f := range c.regionFuncChainsList(pi) {
+				for _, ci := range callsIn(f) {
+					if n := calleeName(ci.Common()); n == "gopkg.in/yaml.v3.Unmarshal" && f == pi {
+						c.site(1)
+						c.check(stripConv(ci.Common().Args[0]) == ssa.Value(pi.Params[0]), "decode|cmd.parseInstances|bytes-as-given", c.pos(ci.Pos()), fname(pi), "the YAML decoder is handed the bytes that were read", fname(pi)+": the bytes handed to the YAML decoder are not the bytes that were read (trimmed, re-cased or rewritten first): white space at the end of the document belongs to its last text - a txt / lic / mrk that ends in a line break loses it")
+					}
 				}
 			}
 		}
